@@ -23,7 +23,8 @@ RULE = ("case = (profile of per-level means / standard deviations / costs, rmse,
 ASSUMPTIONS = ["the scripted coupling process stands for any coupling process (the engine only sees the interface)",
                "kurtosis is compared on profiles whose per-level sample variance is >= 1 (below, the statement does not fix the formula)",
                "sample budget 2e6 per run: beyond it the run is inconclusive, not a violation"]
-REQUIRED_COUNTERS = ["runs_adaptive", "runs_fixed_level", "rows_checked", "levels_added_late", "multi_pass_runs", "add_events"]
+REQUIRED_COUNTERS = ["runs_adaptive", "runs_fixed_level", "rows_checked", "levels_added_late", "multi_pass_runs", "add_events",
+                     "vector_payoff_runs", "control_variate_runs", "control_rows_checked", "adjusted_series_checks", "price_checks"]
 MIN_NONTRIVIAL = {"quick": 40, "thorough": 500}
 SHARD_TIMEOUT = {"quick": 900, "thorough": 7200}
 
@@ -37,7 +38,9 @@ def gen_cases(tier, seed):
         cases.append({"seed": int(rng.integers(2**31)), "profile": kind, "variant": "fixed" if i % 6 == 5 else "adaptive",
                       "rmse_exp": float(rng.uniform(-2.2 if tier == "thorough" else -1.5, -0.3)), "budget": 2_000_000 if tier == "thorough" else 150_000, "L0": int(rng.choice([2, 2, 3, 4])), "N0": int(rng.choice([2, 5, 20, 100, 200])),
                       "Lmax_extra": int(rng.integers(0, 7)), "beta": float(rng.uniform(0.6, 2.2)), "alpha": float(rng.uniform(0.5, 1.5)),
-                      "rates_given": bool(i % 3 != 0), "scale": float(rng.choice([1.0, 30.0]))})
+                      "rates_given": bool(i % 3 != 0), "scale": float(rng.choice([1.0, 30.0])),
+                      "dim": int([1, 1, 2, 1, 3, 1, 1][i % 7]), "ncv": int([0, 1, 0, 2, 0, 0, 1, 0][i % 8]),
+                      "cv_prices": ["scalar", "vector"][(i // 8) % 2]})
     return cases
 
 
@@ -80,6 +83,19 @@ def make_profile(case):
     return profile, cost
 
 
+def _regression(X, y):
+    """coefficients of the sample regression of y on the controls X (n, ncv); None when the controls are (nearly) degenerate on this
+    sample -- the code has its own guard for that case (entries of the covariance matrix below 1e-12) which the statement does not fix"""
+    n = X.shape[0]
+    if n < X.shape[1] + 2:
+        return None
+    Xc = X - X.mean(axis=0)
+    S = Xc.T @ Xc / n
+    if np.min(np.abs(S)) < 1e-8 * max(1.0, np.abs(S).max()) or np.linalg.cond(S) > 1e6:
+        return None
+    return np.linalg.solve(S, Xc.T @ (y - y.mean()) / n)
+
+
 class Tap:
     """record-only wrappers on Statistic.add / extend of the payoff statistics (class level, restored afterwards)"""
 
@@ -114,9 +130,9 @@ def run_case(case, R):
     logging.disable(logging.CRITICAL)
     from rpylib.montecarlo.configuration import ConfigurationMultiLevel, ConvergenceRates
     from rpylib.montecarlo.multilevel.engine import Engine
-    from rpylib.product.product import Product
+    from rpylib.product.product import Product, ControlVariates
     from rpylib.product.underlying import Spot
-    from rpylib.product.payoff import Forward
+    from rpylib.product.payoff import Forward, Vanilla, PayoffType
 
     R.evaluation()
     profile, cost = make_profile(case)
@@ -125,11 +141,40 @@ def run_case(case, R):
     Lmax = L0 + case["Lmax_extra"]
     rates = ConvergenceRates(alpha=case["alpha"], beta=case["beta"], gamma=1.0) if case["rates_given"] else ConvergenceRates()
     cp = ScriptedCoupling(profile, cost, rate=0.02, budget=case.get("budget", 2_000_000))
-    conf = ConfigurationMultiLevel(convergence_rates=rates, initial_level=L0, maximum_level=Lmax, initial_mc_paths=N0, seed=7, nb_of_processes=1)
-    product = Product(payoff_underlying=Spot(), payoff=Forward(strike=10.0), maturity=1.5, notional=2.0)
+    dim, ncv = case.get("dim", 1), case.get("ncv", 0)
+    sc = case["scale"]
+    base = 50.0 * sc
+    if dim == 1:
+        product = Product(payoff_underlying=Spot(), payoff=Forward(strike=10.0), maturity=1.5, notional=2.0)
+
+        def pay(s):
+            return 2.0 * (np.asarray(s, dtype=float)[:, None] - 10.0)
+    else:
+        strikes = [base + sc * x for x in (-0.03, 0.0, 0.04)[:dim]]
+        product = Product(payoff_underlying=Spot(), payoff=Vanilla(strike=list(strikes), payoff_type=PayoffType.CALL), maturity=1.5, notional=2.0)
+
+        def pay(s):
+            return 2.0 * np.maximum(np.asarray(s, dtype=float)[:, None] - np.asarray(strikes)[None, :], 0.0)
     df = math.exp(-0.02 * 1.5)
+    # controls: a call and a put with kinks inside the distribution of the coarse values; their "market prices" are arbitrary numbers
+    cv_specs = [(PayoffType.CALL, base + 0.01 * sc, 0.031 * sc), (PayoffType.PUT, base + 0.02 * sc, 0.017 * sc)][:ncv]
+    conf_kw = {}
+    if ncv:
+        cvp = [Product(payoff_underlying=Spot(), payoff=Vanilla(strike=k, payoff_type=t), maturity=1.5, notional=1.0) for t, k, _ in cv_specs]
+        if case.get("cv_prices") == "vector" and dim > 1:
+            prices = [np.array([pr * (1 + 0.1 * c) for c in range(dim)]) for _, _, pr in cv_specs]
+        else:
+            prices = [pr for _, _, pr in cv_specs]
+        conf_kw["control_variates"] = ControlVariates(products=cvp, prices=prices)
+        pmat = np.array([[np.atleast_1d(np.asarray(p, dtype=float))[c] if np.ndim(p) else float(p) for p in prices] for c in range(dim)])   # (dim, ncv)
+
+        def ctrl(s):
+            s = np.asarray(s, dtype=float)
+            return np.stack([np.maximum((s - k) if t == PayoffType.CALL else (k - s), 0.0) for t, k, _ in cv_specs], axis=1)      # (n, ncv)
+    conf = ConfigurationMultiLevel(convergence_rates=rates, initial_level=L0, maximum_level=Lmax, initial_mc_paths=N0, seed=7, nb_of_processes=1, **conf_kw)
     wit = {"case": case, "rmse": rmse}
     eng = Engine(conf, cp)
+    kindtag = f"dim{'1' if dim == 1 else 'N'}-cv{'0' if ncv == 0 else 'N'}"
     with Tap() as tap:
         try:
             st = eng.price(product, rmse) if case["variant"] == "adaptive" else eng.price_with_constant_mc_paths_and_level(product)
@@ -137,10 +182,14 @@ def run_case(case, R):
             R.skip("sample-budget-exceeded")
             return
         except Exception as exc:  # noqa: BLE001
-            R.violation(f"engine-raises-{case['variant']}", f"multilevel Engine raises {type(exc).__name__}: {exc}", wit)
+            R.violation(f"engine-raises-{case['variant']}-{kindtag}", f"multilevel Engine raises {type(exc).__name__}: {exc} (payoff dimension {dim}, {ncv} control variate(s))", wit)
             return
     R.hit("runs_adaptive" if case["variant"] == "adaptive" else "runs_fixed_level")
     R.hit("add_events", len(tap.adds))
+    if dim > 1:
+        R.hit("vector_payoff_runs")
+    if ncv:
+        R.hit("control_variate_runs")
     for key, msg in tap.problems[:1]:
         R.violation(key, msg, wit)
     # ---- reference model from the event log ---------------------------------------------------------------------------------------
@@ -159,7 +208,6 @@ def run_case(case, R):
     nlev = len(st.mc_statistics)
     res = st.mlmc_results
     Nl = np.asarray(res.Nl, dtype=float)
-    late = [e for e in cp.log.events if e[0] == "next_level"]
     n_late = max(0, nlev - 1 - L0) if case["variant"] == "adaptive" else 0
     if n_late:
         R.hit("levels_added_late", n_late)
@@ -171,50 +219,112 @@ def run_case(case, R):
     if len(Nl) != nlev or set(by_level) - set(range(nlev)):
         R.violation("levels-mismatch", f"{nlev} statistics levels, Nl has {len(Nl)} entries, samples were logged at levels {sorted(by_level)}", wit)
         return
-    price_ref = 0.0
+    price_raw_ref, price_ref, price_ok = 0.0, 0.0, True
     for l in range(nlev):
         logged = by_level.get(l, [])
         n_sim = len(logged)
-        fine_ref = np.array([df * 2.0 * (f - 10.0) for _, f, _ in logged])
-        coarse_ref = np.array([0.0 if l == 0 else df * 2.0 * (c - 10.0) for _, _, c in logged])
-        fine_got = np.asarray(st.simulation_payoff_with_fine_process(l), dtype=float)
-        coarse_got = np.asarray(st.simulation_payoff_with_coarse_process(l), dtype=float)
+        fvals = np.array([f for _, f, _ in logged], dtype=float)
+        cvals = np.array([c for _, _, c in logged], dtype=float)
+        fine_ref = df * pay(fvals) if n_sim else np.zeros((0, dim))                       # (n, dim)
+        coarse_ref = (df * pay(cvals) if l > 0 else np.zeros((n_sim, dim))) if n_sim else np.zeros((0, dim))
+        raw = np.asarray(st.mc_statistics[l]._payoff_statistics.stats, dtype=float)       # (rows, dim, 2)
+        fine_got, coarse_got = raw[:, :, 0], raw[:, :, 1]
         R.hit("rows_checked", len(fine_got))
         late_tag = "level-added-late" if (case["variant"] == "adaptive" and l > L0) else "initial-level"
         if int(round(Nl[l])) != n_sim:
             R.violation(f"Nl-not-number-of-simulated-samples-{late_tag}", f"level {l}: Nl = {Nl[l]!r} but {n_sim} samples were simulated at that level", wit)
+        rows_ok = True
         if len(fine_got) != n_sim:
-            zero_rows = int(np.sum((fine_got == 0.0) & (coarse_got == 0.0)))
+            rows_ok = False
+            zero_rows = int(np.sum(np.all(fine_got == 0.0, axis=1) & np.all(coarse_got == 0.0, axis=1)))
             R.violation(f"stored-rows-not-simulated-samples-{late_tag}", f"level {l}: {len(fine_got)} stored rows for {n_sim} simulated samples "
-                        f"({zero_rows} all-zero placeholder row(s); first row {[float(fine_got[0]), float(coarse_got[0])] if len(fine_got) else None})", wit)
-        else:
-            # same multiset, and (single process) same order
-            if not (np.allclose(np.sort(fine_got), np.sort(fine_ref), rtol=1e-12, atol=1e-12) and
-                    np.allclose(np.sort(coarse_got), np.sort(coarse_ref), rtol=1e-12, atol=1e-12)):
-                R.violation(f"stored-rows-differ-from-simulated-samples-{late_tag}", f"level {l}: the stored (fine, coarse) rows are not the simulated "
-                            "samples (dropped, duplicated or overwritten)", wit)
+                        f"({zero_rows} all-zero placeholder row(s); first row {[fine_got[0].tolist(), coarse_got[0].tolist()] if len(fine_got) else None})", wit)
+        elif n_sim:
+            # single process: same order
+            tol_rows = 1e-12 * (np.abs(fine_ref).max() + 1)
+            if not (np.allclose(fine_got, fine_ref, rtol=1e-12, atol=tol_rows) and np.allclose(coarse_got, coarse_ref, rtol=1e-12, atol=tol_rows)):
+                if np.allclose(np.sort(fine_got, axis=0), np.sort(fine_ref, axis=0), rtol=1e-12, atol=tol_rows) and \
+                        np.allclose(np.sort(coarse_got, axis=0), np.sort(coarse_ref, axis=0), rtol=1e-12, atol=tol_rows):
+                    pass      # same multiset in another order: allowed by the statement
+                else:
+                    rows_ok = False
+                    comp = int(np.argmax(np.abs(fine_got - fine_ref).max(axis=0) + np.abs(coarse_got - coarse_ref).max(axis=0)))
+                    R.violation(f"stored-rows-differ-from-simulated-samples-{late_tag}-{kindtag}", f"level {l}: the stored (fine, coarse) rows are not the simulated "
+                                f"samples (dropped, duplicated, overwritten or mis-shaped; payoff component {comp} of {dim})", wit)
         if l == 0 and np.any(coarse_got != 0.0):
             R.violation("coarse-payoff-not-zero-at-level-0", f"level 0 coarse payoffs: {coarse_got[:3].tolist()}", wit)
-        if n_sim:
-            d_ref = fine_ref - coarse_ref
-            price_ref += d_ref.mean()
-            tol = 1e-9 * (abs(fine_ref).max() + 1)
-            chk = [("ml", float(res.ml[l]), abs(d_ref.mean())), ("vl", float(res.vl[l]), max(0.0, d_ref.var())),
-                   ("mean_level_l", float(res.mean_level_l[l]), fine_ref.mean()), ("var_level_l", float(res.var_level_l[l]), fine_ref.var()),
-                   ("cl", float(res.cl[l]), cost(l))]
-            for name, got, want in chk:
-                scale = abs(want) + (abs(fine_ref).max() ** 2 if name.startswith("v") else abs(fine_ref).max()) * 1e-6 + 1e-12
-                if abs(got - want) > 1e-7 * scale + (1e-9 * abs(fine_ref).max() ** 2 if name.startswith("v") else 0.0):
-                    R.violation(f"result-{name}-not-from-simulated-samples-{late_tag}", f"level {l}: {name} = {got!r}, recomputed from the "
-                                f"{n_sim} simulated samples: {want!r}", wit)
-            if d_ref.var() >= 1.0 and n_sim >= 4:
-                m = d_ref.mean()
-                kurt = np.mean((d_ref - m) ** 4) / d_ref.var() ** 2
-                if abs(float(res.kurtosis[l]) - kurt) > 1e-6 * (1 + kurt):
-                    R.violation("result-kurtosis", f"level {l}: kurtosis {float(res.kurtosis[l])!r}, from the samples {kurt!r}", wit)
+        if not n_sim:
+            continue
+        price_raw_ref += float((fine_ref[:, 0] - coarse_ref[:, 0]).mean())
+        # ---- series the results are computed from: raw, or regression-adjusted with the controls -------------------------------------
+        a_fine, a_coarse = fine_ref[:, 0], coarse_ref[:, 0]
+        adj_known = True
+        if ncv:
+            Xf = df * ctrl(fvals)
+            Xc = df * ctrl(cvals) if l > 0 else np.zeros_like(Xf)
+            cvs = np.asarray(st.mc_statistics[l]._control_variates_statistics.stats, dtype=float)
+            R.hit("control_rows_checked", cvs.shape[0])
+            if cvs.shape[0] != n_sim:
+                R.violation(f"stored-control-rows-not-simulated-samples-{late_tag}", f"level {l}: {cvs.shape[0]} stored control-variate rows for {n_sim} simulated samples", wit)
+                adj_known = False
+            else:
+                got_f = cvs[..., 0] if l > 0 else cvs                # (n, ncv, dim)
+                got_c = cvs[..., 1] if l > 0 else None
+                okc = np.allclose(got_f, Xf[:, :, None] * np.ones(dim), rtol=1e-12, atol=1e-12 * (base + 1))
+                if got_c is not None:
+                    okc = okc and np.allclose(got_c, Xc[:, :, None] * np.ones(dim), rtol=1e-12, atol=1e-12 * (base + 1))
+                if not okc:
+                    R.violation(f"stored-control-rows-differ-from-simulated-samples-{late_tag}", f"level {l}: the stored control-variate values are not those of the simulated samples", wit)
+                    adj_known = False
+            adj_got = np.asarray(st._get_payoff_statistics(level=l).stats, dtype=float)
+            series = []
+            for which, (Y, X) in enumerate(((fine_ref, Xf), (coarse_ref, Xc))):
+                out = np.empty_like(Y)
+                for c in range(dim):
+                    b = _regression(X, Y[:, c])
+                    if b is None:
+                        adj_known = False
+                        out[:, c] = np.nan
+                    else:
+                        out[:, c] = Y[:, c] - (X - pmat[c][None, :]) @ b
+                series.append(out)
+            if adj_known and rows_ok and adj_got.shape[0] == n_sim:
+                R.hit("adjusted_series_checks")
+                tolA = 1e-7 * (np.abs(fine_ref).max() + np.abs(series[0]).max() + 1)
+                if not (np.allclose(adj_got[:, :, 0], series[0], rtol=0, atol=tolA) and np.allclose(adj_got[:, :, 1], series[1], rtol=0, atol=tolA)):
+                    R.violation(f"control-adjusted-samples-not-from-simulated-samples-{late_tag}-{kindtag}", f"level {l}: the control-variate adjusted series differs from "
+                                f"Y - b*(X - price) recomputed on the {n_sim} simulated samples (max deviation "
+                                f"{float(max(np.abs(adj_got[:, :, 0] - series[0]).max(), np.abs(adj_got[:, :, 1] - series[1]).max()))!r})", wit)
+            elif not adj_known:
+                R.skip("degenerate-controls-at-a-level")
+            a_fine, a_coarse = series[0][:, 0], series[1][:, 0]
+        if not adj_known:
+            price_ok = False
+            continue
+        d_ref = a_fine - a_coarse
+        price_ref += float(d_ref.mean())
+        amax = max(np.abs(a_fine).max(), 1e-300)
+        chk = [("ml", float(res.ml[l]), abs(d_ref.mean())), ("vl", float(res.vl[l]), max(0.0, d_ref.var())),
+               ("mean_level_l", float(res.mean_level_l[l]), a_fine.mean()), ("var_level_l", float(res.var_level_l[l]), a_fine.var()),
+               ("cl", float(res.cl[l]), cost(l))]
+        for name, got, want in chk:
+            scale = abs(want) + (amax ** 2 if name.startswith("v") else amax) * 1e-6 + 1e-12
+            if abs(got - want) > 1e-7 * scale + (1e-9 * amax ** 2 if name.startswith("v") else 0.0):
+                R.violation(f"result-{name}-not-from-simulated-samples-{late_tag}", f"level {l}: {name} = {got!r}, recomputed from the "
+                            f"{n_sim} simulated samples: {want!r}", wit)
+        if d_ref.var() >= 1.0 and n_sim >= 4:
+            m = d_ref.mean()
+            kurt = np.mean((d_ref - m) ** 4) / d_ref.var() ** 2
+            if abs(float(res.kurtosis[l]) - kurt) > 1e-6 * (1 + kurt):
+                R.violation("result-kurtosis", f"level {l}: kurtosis {float(res.kurtosis[l])!r}, from the samples {kurt!r}", wit)
+    got_raw = float(st.price(no_control_variates=True))
+    R.hit("price_checks")
+    if abs(got_raw - price_raw_ref) > 1e-9 * (abs(price_raw_ref) + sc):
+        R.violation(f"price-not-sum-of-level-means-{kindtag}", f"price(no control variates) = {got_raw!r}, sum over levels of mean(fine - coarse) over the simulated samples = {price_raw_ref!r}", wit)
     got_price = float(st.price())
-    if abs(got_price - price_ref) > 1e-9 * (abs(price_ref) + case["scale"]):
-        R.violation("price-not-sum-of-level-means", f"price() = {got_price!r}, sum over levels of mean(fine - coarse) over the simulated samples = {price_ref!r}", wit)
+    if price_ok and abs(got_price - price_ref) > 1e-7 * (abs(price_ref) + sc):
+        R.violation(f"price-not-sum-of-level-means-{kindtag}", f"price() = {got_price!r}, sum over levels of mean(fine - coarse) of the {'control-adjusted ' if ncv else ''}"
+                    f"simulated samples = {price_ref!r}", wit)
     tot_cost = sum(cost(l) * len(by_level.get(l, [])) for l in range(nlev))
     if abs(float(res.cost) - tot_cost) > 1e-9 * tot_cost:
         R.violation("total-cost", f"cost = {float(res.cost)!r}, sum of cost x simulated samples = {tot_cost!r}", wit)
@@ -225,7 +335,7 @@ def run_case(case, R):
     dup = [k for k, c in seen.items() if c > 1]
     if dup:
         R.violation("row-written-twice", f"{len(dup)} statistic rows were written more than once (e.g. row {dup[0][1]})", wit)
-    sig = (nlev, tuple(sz for _, sz in passes)[:12], n_late)
+    sig = (nlev, tuple(sz for _, sz in passes)[:12], n_late, dim, ncv)
     if max(blocks_per_level.values(), default=1) >= 2 or n_late:
         R.nontrivial_case(sig)
     if case["seed"] % 25 == 0:
